@@ -409,6 +409,24 @@ func buildDiskDB(r *rand.Rand, tmp string, delta bool, nops int, seqKeys bool) *
 	return d
 }
 
+// hugeLength reports whether flipping [bit] of byte [off] of a shard file turns a length prefix into
+// more than 16 MiB.
+func hugeLength(content []byte, off, bit int) bool {
+	for p := 0; p+4 <= len(content); {
+		l := int(binary.BigEndian.Uint32(content[p : p+4]))
+		if off >= p && off < p+4 {
+			mod := append([]byte(nil), content[p:p+4]...)
+			mod[off-p] ^= byte(bit)
+			return binary.BigEndian.Uint32(mod) > 1<<24
+		}
+		if l == 0 {
+			break
+		}
+		p += 4 + l
+	}
+	return false
+}
+
 func hexItems(items [][]byte) []string {
 	out := make([]string, len(items))
 	for i, it := range items {
@@ -525,9 +543,19 @@ func diskLoadRun(a runArgs, sink *CaseSink) error {
 		}
 		for _, f := range nonEmptyShards {
 			sz := sizes[f]
+			content, _ := os.ReadFile(filepath.Join(d.dir, f))
 			for k := 0; k < 10; k++ {
 				off := top.Intn(sz)
-				add(fmt.Sprintf("flip bit of %s[%d]", f, off), diskFault{f, "flip", off, 1 << uint(top.Intn(8))})
+				bit := 1 << uint(top.Intn(8))
+				if hugeLength(content, off, bit) {
+					// a length prefix of hundreds of megabytes makes the reader allocate that much before
+					// it notices the short file (recorded limit): keep the damage in the low-order bytes
+					bit = 1
+					if hugeLength(content, off, bit) {
+						continue
+					}
+				}
+				add(fmt.Sprintf("flip bit of %s[%d]", f, off), diskFault{f, "flip", off, bit})
 				add(fmt.Sprintf("truncate %s at %d", f, top.Intn(sz)), diskFault{f, "trunc", top.Intn(sz), 0})
 			}
 			add(fmt.Sprintf("truncate %s at %d", f, sz-1), diskFault{f, "trunc", sz - 1, 0})
